@@ -76,17 +76,19 @@ Proof.
   cbn [name_wire name_wire_len]. rewrite blen_cons, blen_app, IH. lia.
 Qed.
 
-Lemma write_name_aux_fresh off n : write_name_aux [] off n = (name_wire n, snd (fst (write_name_aux [] off n)), 0).
+Lemma write_name_aux_fresh n : forall off, Forall label_ok n ->
+  exists ents, write_name_aux [] off n = Some (name_wire n, ents, 0).
 Proof.
-  revert off; induction n as [|l r IH]; intros off; [reflexivity|].
-  cbn [write_name_aux cache_find]. rewrite (IH (off + 1 + blen l)).
-  destruct (write_name_aux [] (off + 1 + blen l) r) as [[bs ents] d]. reflexivity.
+  induction n as [|l r IH]; intros off Hok; [eexists; reflexivity|].
+  inversion Hok as [|? ? Hl Hr]; subst. unfold label_ok in Hl.
+  cbn [write_name_aux cache_find].
+  destruct ((blen l =? 0) || (63 <? blen l)) eqn:Hb; [lia|].
+  destruct (IH (off + 1 + blen l) Hr) as [ents E]. rewrite E. eexists; reflexivity.
 Qed.
 
-Lemma write_name_fresh off n : fst (write_name [] off n) = name_wire n.
+Lemma write_name_fresh off n : Forall label_ok n -> exists c, write_name [] off n = Some (name_wire n, c).
 Proof.
-  unfold write_name. rewrite write_name_aux_fresh.
-  reflexivity.
+  intros H. unfold write_name. destruct (write_name_aux_fresh n off H) as [ents E]. rewrite E. eexists; reflexivity.
 Qed.
 
 (* reading a verbatim name back *)
@@ -129,10 +131,10 @@ Qed.
 (* NewName accepts n  ->  a fresh builder's WriteName followed by readName yields n *)
 Lemma name_roundtrip n n' :
   new_name n = Ok n' ->
-  read_name (fst (write_name [] 0 n')) 0 = Ok (n, name_wire_len n).
+  exists w c, write_name [] 0 n' = Some (w, c) /\ read_name w 0 = Ok (n, name_wire_len n).
 Proof.
   intros H. apply new_name_ok in H as (-> & H1 & H2).
-  rewrite write_name_fresh.
+  destruct (write_name_fresh 0 n H1) as [c E]. exists (name_wire n), c. split; [exact E|].
   pose proof (read_name_wire [] [] n) as R. cbn [app] in R. rewrite app_nil_r in R.
   change (blen []) with 0 in R. rewrite N.add_0_l in R.
   apply R. apply name_ok_spec. auto.
